@@ -22,6 +22,10 @@ type C06Op struct {
 	K      int      `json:"k,omitempty"`
 	Silent bool     `json:"silent,omitempty"` // the request's rules return nothing (empty result map)
 	StopOnErr bool  `json:"stop_on_err,omitempty"` // pass b=false to methods that take the policy flag
+	// Degenerate (N-M and DAG methods only): 1 = N is 0, 2 = N+M exceeds the rule set, 3 = an
+	// empty DAG / a name list that does not match N+M. Such a call runs nothing; its result
+	// map must be empty, whatever the instance served before.
+	Degenerate int `json:"degenerate,omitempty"`
 }
 
 type C06Case struct {
@@ -120,7 +124,13 @@ func init() {
 				if pct(t, fmt.Sprintf("key%d_kapi", i), 30) {
 					keys = append(keys, "kapi")
 				}
-				c.Ops = append(c.Ops, C06Op{Kind: "start", Keys: keys, Method: uni(t, fmt.Sprintf("m%d", i), 0, len(c06Methods)-1), Silent: pct(t, fmt.Sprintf("silent%d", i), 25), StopOnErr: pct(t, fmt.Sprintf("stoponerr%d", i), 30)})
+				op := C06Op{Kind: "start", Keys: keys, Method: uni(t, fmt.Sprintf("m%d", i), 0, len(c06Methods)-1), Silent: pct(t, fmt.Sprintf("silent%d", i), 25), StopOnErr: pct(t, fmt.Sprintf("stoponerr%d", i), 30)}
+				if m, _ := gx.Lookup(c06Methods[op.Method]); (m.NM || m.Shape == gx.ShDAG) && pct(t, fmt.Sprintf("degenerate%d", i), 35) {
+					op.Degenerate = uni(t, fmt.Sprintf("degkind%d", i), 1, 3)
+					c.Ops = append(c.Ops, op)
+					continue // it runs nothing and never parks
+				}
+				c.Ops = append(c.Ops, op)
 				out++
 			}
 			return c
@@ -144,12 +154,24 @@ func init() {
 				return
 			}
 			nextID := int64(1000)
+			degenerateIDs := map[int64]bool{}
 			maxParked := 0
 			keySets := map[string]bool{}
 			checkReq := func(r *poolReq, step int) bool {
 				if h.gates.Parked(fmt.Sprint(r.id)) {
 					x.Violation("straggler", "step %d: request %d (%s) returned (and its instance went back to the pool) while one of its rules was still running", step, r.id, r.call)
 					return false
+				}
+				if degenerateIDs[r.id] {
+					if len(r.res.Map) > 0 {
+						x.Violation("foreign-result:degenerate", "step %d: request %d (%s) has parameters with which nothing runs, but it was handed the result map %v (the map of the request its instance served before)", step, r.id, r.call, sortedMap(r.res.Map))
+						return false
+					}
+					if r.res.Panic != "" {
+						x.Violation("request-panic", "step %d: request %d (%s) panicked: %s", step, r.id, r.call, truncate(r.res.Panic, 200))
+						return false
+					}
+					return true
 				}
 				if r.kind == 1 && len(r.res.Map) > 0 {
 					x.Violation("foreign-result:silent", "step %d: request %d (%s) returns nothing from any rule, but its result map is %v", step, r.id, r.call.Method, sortedMap(r.res.Map))
@@ -208,6 +230,30 @@ func init() {
 					call := fullCall(c06Methods[op.Method%len(c06Methods)], names, step)
 					if op.StopOnErr {
 						call.B = false
+					}
+					degenerate := false
+					if m, _ := gx.Lookup(call.Method); op.Degenerate > 0 {
+						switch {
+						case m.Shape == gx.ShDAG:
+							call.DAG = [][]string{}
+							degenerate = true
+						case m.NM && op.Degenerate == 1:
+							call.N, call.M = 0, len(names)
+							degenerate = true
+						case m.NM && op.Degenerate == 2:
+							call.N, call.M = len(names), 2
+							degenerate = true
+						case m.NM && m.Selected:
+							call.Names = call.Names[:len(call.Names)-1]
+							degenerate = true
+						case m.NM:
+							call.N, call.M = -1, len(names)+1
+							degenerate = true
+						}
+					}
+					if degenerate {
+						x.Class("request-with-degenerate-parameters")
+						degenerateIDs[nextID] = true
 					}
 					keys := append([]string{"who"}, op.Keys...)
 					kind := int64(0)
